@@ -84,7 +84,7 @@ def attach_visits(prop="C14"):
         return around
 
     for order, name in (("pre", "preorder"), ("in", "inorder"), ("post", "postorder")):
-        contracts.attach(BinaryTreeNode, f"visit_{name}", around=make(order, name))
+        contracts.attach_hierarchy(BinaryTreeNode, f"visit_{name}", around=make(order, name))
 
 
 def _p(node):
@@ -136,7 +136,9 @@ def attach_queries(prop="C14"):
         else:
             want = ValueError
         if want is ValueError:
-            if not isinstance(exc, ValueError):
+            if isinstance(exc, RecursionError):
+                core.REC.skip("get_side: the error message renders a very deep tree (interpreter stack), nothing about sides")
+            elif not isinstance(exc, ValueError):
                 bad(self, "get_side", res if exc is None else repr(exc), "ValueError for a non-child")
         elif exc is not None or res != want:
             bad(self, "get_side", repr(exc) if exc else res, want)
@@ -170,12 +172,12 @@ def attach_queries(prop="C14"):
         if exc is not None or bool(res) != want:
             bad(self, "is_leaf", repr(exc) if exc else res, want)
 
-    contracts.attach(BinaryTreeNode, "get_root", post=post_root)
-    contracts.attach(BinaryTreeNode, "get_root_side", post=post_root_side)
-    contracts.attach(BinaryTreeNode, "get_side", post=post_side)
-    contracts.attach(BinaryTreeNode, "get_sibling", post=post_sibling)
-    contracts.attach(BinaryTreeNode, "get_children", post=post_children)
-    contracts.attach(BinaryTreeNode, "is_leaf", post=post_leaf)
+    contracts.attach_hierarchy(BinaryTreeNode, "get_root", post=post_root)
+    contracts.attach_hierarchy(BinaryTreeNode, "get_root_side", post=post_root_side)
+    contracts.attach_hierarchy(BinaryTreeNode, "get_side", post=post_side)
+    contracts.attach_hierarchy(BinaryTreeNode, "get_sibling", post=post_sibling)
+    contracts.attach_hierarchy(BinaryTreeNode, "get_children", post=post_children)
+    contracts.attach_hierarchy(BinaryTreeNode, "is_leaf", post=post_leaf)
 
     def post_to_list(snap, a, k, res, exc):
         self = a[0]
@@ -208,9 +210,9 @@ def attach_queries(prop="C14"):
         if exc is not None or res is not want:
             bad(self, "find_id", repr(exc) if exc else ("None" if res is None else "another node"), "first in-order node with that id")
 
-    contracts.attach(MathExpression, "to_list", post=post_to_list)
-    contracts.attach(MathExpression, "find_type", post=post_find_type)
-    contracts.attach(MathExpression, "find_id", post=post_find_id)
+    contracts.attach_hierarchy(MathExpression, "to_list", post=post_to_list)
+    contracts.attach_hierarchy(MathExpression, "find_type", post=post_find_type)
+    contracts.attach_hierarchy(MathExpression, "find_id", post=post_find_id)
 
 
 def attach_rotate(prop="C15"):
@@ -287,4 +289,4 @@ def attach_rotate(prop="C15"):
                           {"shape": snap["shape"], "node_path": snap["path"], "problems": problems[:6],
                            "summary": f"shape {snap['shape']} rotate node at {snap['path'] or 'root'}: {problems[0]}"})
 
-    contracts.attach(BinaryTreeNode, "rotate", pre=pre, post=post)
+    contracts.attach_hierarchy(BinaryTreeNode, "rotate", pre=pre, post=post)
